@@ -387,6 +387,12 @@ class Package:
                 # the helper became a (static/class) method: ``self._helper(..)`` / ``Cls._helper(..)``
                 cands += [u for u in m.units.values() if u.cls is not None and u.parent is None
                           and u.qualname.rsplit(".", 1)[-1] == call.func.attr]
+            elif isinstance(call.func, ast.Attribute) and isinstance(call.func.value, ast.Name) and call.func.value.id.startswith("_"):
+                # ... or a method of a private namespace class: ``_Helpers.step(..)``
+                res = self.resolve_global(m, call.func.value.id)
+                info = self.lib_class(res.qual) if res.kind == "lib" else None
+                if info is not None and call.func.attr in info.methods:
+                    cands.append(info.methods[call.func.attr])
             for u in cands:
                 if u.kind == kind and (u.module is m or u.module.short.startswith("_")) and u.parent is None \
                         and not u.is_overload() \
